@@ -110,6 +110,120 @@ def no_leak_lemmas():
     return out
 
 
+def ippo_pipeline(P, tier):
+    """IPPO._learn_individual from its first statement to the tuple handed to the minibatch loop, on the exact N-d tensor
+    model (contracts/ndt.py): A agents sharing the policy and E environments concrete (enumerated), rollout length T symbolic.
+    Agent a's rollout is column block a*E .. a*E+E-1 of the arrays of the GAE definition, so the postcondition reads:
+    flat row a*T*E + t*E + e of EVERY training tensor belongs to (agent a, step t, env e)."""
+    from . import ndt
+    from .ndt import ND
+    LP_ = z3.Const("log_probs", TT.A2)
+    S_ = z3.Function("S_obs", I, I, I, I, Re)          # observation feature j of (agent, step, env)
+    ACT_ = z3.Function("S_act", I, I, I, Re)           # action of (agent, step, env)
+    NS_ = z3.Function("S_next_obs", I, I, I, Re)       # final next observation feature j of (agent, env)
+    CR_ = z3.Function("critic", Re, Re, Re)            # the critic: an arbitrary function of an observation row (D = 2 features)
+    D = 2
+
+    class Space:
+        def __init__(self, cls, shape):
+            self.cls, self.shape = cls, shape
+
+        def isinstance(self, ex, st, names):
+            return self.cls in names
+
+        def getattr(self, ex, st, name):
+            if name == "shape":
+                return self.shape
+            raise Undecided(f"space attribute {name}")
+
+    def critic(ex, st, a, k):
+        x = a[0]
+        if not isinstance(x, ND) or not x.shape or ndt.cp(x.shape[-1]) != (D, None):
+            raise Undecided("critic on something that is not a batch of observation rows")
+        return ND(x.shape[:-1] + [1], lambda idx: CR_(x.at(list(idx[:-1]) + [z3.IntVal(0)]), x.at(list(idx[:-1]) + [z3.IntVal(1)])), "critic-out")
+
+    combos = [(1, 1), (2, 1), (1, 2), (2, 2), (3, 2)] if tier == "quick" else [(a, e) for a in (1, 2, 3) for e in (1, 2, 3)]
+    for (A, E) in combos:
+        for act_kind in (("Discrete",) if (A, E) != (2, 2) and tier == "quick" else ("Discrete", "Box1")):
+            C = A * E
+            tag = f"A{A}E{E}{act_kind}"
+
+            def setup(ex, st, fr, A=A, E=E, C=C, act_kind=act_kind):
+                agents = [f"agent_{a}" for a in range(A)]
+
+                def per(arr):
+                    return {ag: ND([T_, E], (lambda idx, a=a: arr[z3ify(idx[0])][a * E + z3ify(idx[1])]), "in", True) for a, ag in enumerate(agents)}
+                states = {ag: ND([T_, E, D], (lambda idx, a=a: S_(z3.IntVal(a), z3ify(idx[0]), z3ify(idx[1]), z3ify(idx[2]))), "obs", True) for a, ag in enumerate(agents)}
+                if act_kind == "Discrete":
+                    actions = {ag: ND([T_, E], (lambda idx, a=a: ACT_(z3.IntVal(a), z3ify(idx[0]), z3ify(idx[1]))), "act", True) for a, ag in enumerate(agents)}
+                    aspace = Space("Discrete", ())
+                else:
+                    actions = {ag: ND([T_, E, 1], (lambda idx, a=a: ACT_(z3.IntVal(a), z3ify(idx[0]), z3ify(idx[1]))), "act", True) for a, ag in enumerate(agents)}
+                    aspace = Space("Box", (1,))
+                next_state = {ag: ND([E, D], (lambda idx, a=a: NS_(z3.IntVal(a), z3ify(idx[0]), z3ify(idx[1]))), "next_obs", True) for a, ag in enumerate(agents)}
+                next_done = {ag: ND([E], (lambda idx, a=a: ND_[a * E + z3ify(idx[0])]), "next_done", True) for a, ag in enumerate(agents)}
+                o = Obj("model.IPPO", label="self")
+                o.fields.update(dict(gamma=G_, gae_lambda=L_, device="cpu", normalize_images=True))
+                st.locals.update(dict(self=o, experiences=(states, actions, per(LP_), per(R_), per(D_), per(V_), next_state, next_done),
+                                      actor=Opaque("actor"), critic=Fn(model=critic, name="critic"), actor_optimizer=Opaque("opt"), critic_optimizer=Opaque("opt"),
+                                      obs_space=Space("Box", (D,)), action_space=aspace))
+                # the bootstrap value of column (a, e) IS the critic's value of that agent's final next observation in that env
+                e = z3.Int("e!nv")
+                for a in range(A):
+                    st.assume(z3.ForAll([e], z3.Implies(z3.And(0 <= e, e < E), NV_[a * E + e] == CR_(NS_(a, e, 0), NS_(a, e, 1)))))
+                st.assume(E_ == C)
+                st.assume(T_ * C >= 2)          # a rollout of a single sample is never used for an update (len(minibatch_idxs) > 1)
+
+            def rows_done_nd(adv, lo, C=C):
+                s_, c_ = z3.Int("s!rn"), z3.Int("c!rn")
+                if not (isinstance(adv, ND) and len(adv.shape) == 2 and ndt.cp(adv.shape[1]) == (C, None)):
+                    return z3.BoolVal(False)
+                return z3.And(z3ify(adv.shape[0]) == T_,
+                              *[z3.ForAll([s_], z3.Implies(z3.And(z3ify(lo) <= s_, s_ < T_), z3.simplify(adv.at([s_, z3.IntVal(c)])) == A_(s_, c))) for c in range(C)])
+
+            def last_is_nd(last, k, C=C):
+                k = z3ify(k)
+                if not isinstance(last, ND):
+                    return z3.BoolVal(False)
+                if ndt.prod(last.shape) != (C, None):
+                    return z3.BoolVal(False)
+                return z3.And(*[last.flat(z3.IntVal(c)) == z3.If(k == 0, z3.RealVal(0), A_(T_ - k, c)) for c in range(C)])
+
+            def zero_nd(v, C=C):
+                return ND([C], lambda idx: z3.RealVal(0), "last") if (isinstance(v, int) and v == 0) else v
+
+            def rows_post(exps, A=A, E=E, act_kind=act_kind):
+                if not (isinstance(exps, tuple) and len(exps) == 6 and all(isinstance(x, ND) for x in exps)):
+                    return z3.BoolVal(False)
+                st_, ac, lp, adv, ret, val = exps
+                N = A * E * T_
+                t, e, j = z3.Int("t!rp"), z3.Int("e!rp"), z3.Int("j!rp")
+                out = [z3ify(st_.numel()) == N * D] + [z3ify(x.numel()) == N for x in (ac, lp, adv, ret, val)]
+                # one row per sample: the minibatch indices address the first dimension of every tensor
+                for x in exps:
+                    out.append(z3.Or(N == 1, z3ify(x.shape[0]) == N) if x.shape else (N == 1))
+                for a in range(A):
+                    row = a * E * T_ + t * E + e
+                    col = a * E + e
+                    rng = z3.And(0 <= t, t < T_, 0 <= e, e < E)
+                    out.append(z3.ForAll([t, e, j], z3.Implies(z3.And(rng, 0 <= j, j < D), st_.flat(row * D + j) == S_(a, t, e, j))))
+                    out.append(z3.ForAll([t, e], z3.Implies(rng, ac.flat(row) == ACT_(a, t, e))))
+                    out.append(z3.ForAll([t, e], z3.Implies(rng, lp.flat(row) == LP_[t][col])))
+                    out.append(z3.ForAll([t, e], z3.Implies(rng, val.flat(row) == V_[t][col])))
+                    out.append(z3.ForAll([t, e], z3.Implies(rng, adv.flat(row) == A_(t, col))))
+                    out.append(z3.ForAll([t, e], z3.Implies(rng, ret.flat(row) == A_(t, col) + V_[t][col])))
+                return z3.And(*out)
+            P.specns.update({f"rows_done_{tag}": rows_done_nd, f"last_is_{tag}": last_is_nd, f"zero_{tag}": zero_nd, f"rows_post_{tag}": rows_post})
+            P.contract("agilerl.algorithms.ippo.IPPO._learn_individual", variant=f"rows-{tag}",
+                       region=region("states, actions, log_probs, rewards", "experiences = (states, actions"),
+                       setup=setup, params={}, requires=[], frame_fields=False,
+                       loops={0: dict(invariant=[f"rows_done_{tag}(advantages, T - _k)", f"last_is_{tag}(last_gae_lambda, _k)"],
+                                      coerce={"last_gae_lambda": f"zero_{tag}"},
+                                      ghost_pre=["use(unfoldA(T - 1 - _k))"])},
+                       ensures=[f"rows_post_{tag}(experiences)"], replay="c17:ippo_align")
+    ndt.install(P)
+
+
 def build(tier):
     P = Prop("C17")
     TT.install(P)
@@ -149,11 +263,13 @@ def build(tier):
         o.fields.update(dict(gamma=G_, gae_lambda=L_, device="cpu", normalize_images=True))
         return o
     P.lib["agilerl.utils.algo_utils.preprocess_observation"] = lambda ex, st, a, k: a[0]
+    # any number of columns (agents x envs): the recursion itself, from the reshape of the stacked rollout to the end of the loop
     P.contract("agilerl.algorithms.ippo.IPPO._learn_individual", variant="gae",
-               region=region("dones = dones.long()", "with torch.no_grad()"),
+               region=region("rewards = rewards.reshape(num_steps", "for t in reversed(range(num_steps))"),
                params={"self": ippo_self, "experiences": "opaque", "actor": "opaque", "actor_optimizer": "opaque",
                        "critic_optimizer": "opaque", "obs_space": "opaque", "action_space": "opaque",
                        "critic": lambda ex, st, l: Fn(model=lambda ex, st, a, k: Vec(E_, NV_, "next_value"), name="critic"),
+                       "num_steps": lambda ex, st, l: T_,
                        "rewards": lambda ex, st, l: Mat(T_, E_, R_, "rewards"), "values": lambda ex, st, l: Mat(T_, E_, V_, "values"),
                        "dones": lambda ex, st, l: Mat(T_, E_, D_, "dones"), "next_done": lambda ex, st, l: Vec(E_, ND_, "next_done"),
                        "next_state": "opaque"},
@@ -162,8 +278,9 @@ def build(tier):
                                          "advantages.R == T", "advantages.C == E"],
                               coerce={"last_gae_lambda": "zero_vec"},
                               ghost_pre=["use(unfoldA(T - 1 - _k))"])},
-               ensures=["flat_ok(advantages, returns, values)"],
+               ensures=["rows_done(advantages, 0)"],
                replay="c17:ippo_gae")
+    ippo_pipeline(P, tier)
     P.specns["zero_vec"] = lambda v: Vec(E_, z3.K(I, z3.RealVal(0)), "last") if (isinstance(v, int) and v == 0) else v
     # ---- row alignment for PPO: one flattening map and one index vector for all six tensors
     def flat_same_map(outs, ins):
